@@ -752,6 +752,14 @@ func (g *gen) genTypeDef() *TypeDef {
 			if other.Type.String() != td.Type.String() && g.types.reserve(other.Name) {
 				td.Name = other.Name
 				g.feat("typedef_name_shadows_included_typedef")
+				// a re-export: the local alias of the same name stands for the
+				// included one ("typedef inc.Id Id")
+				if g.cfg.ShadowNames && g.rng.Intn(3) == 0 {
+					if u, _ := g.prog.underlyingWith(g.file, f, other.Type); !hasCustom(u) {
+						td.Type = T(g.ref(f, other.Name))
+						g.feat("typedef_reexports_included_typedef_of_the_same_name")
+					}
+				}
 			}
 		}
 	}
